@@ -519,7 +519,7 @@ func c06Run(b *core.B) {
 	// random trees to depth 5, type-directed half of the time so that deep trees evaluate
 	n := 40000
 	if b.Tier == core.Thorough {
-		n = 1500000
+		n = 5000000
 	}
 	var gen func(d int, want string) *xNode
 	gen = func(d int, want string) *xNode {
